@@ -103,7 +103,20 @@ class Interp:
         self.trips = {}
         for l in f.loops:
             if l["parent"] != -1:
-                raise Broken("D-COV: nested loops in %s" % f.name)
+                # an inner loop is tolerated when it never touches the tracked buffer (a helper loop over the state inside a block loop):
+                # the enclosing loop's summary then has nothing to account for in it
+                for b_ in l["blocks"]:
+                    for iid in f.blocks[b_].insts:
+                        I = f.insts[iid]
+                        ptrs = []
+                        if I.op == "load":
+                            ptrs = [I.ops[0]]
+                        elif I.op == "store":
+                            ptrs = [I.ops[1]]
+                        elif I.op == "call" and not I.is_dbg() and not I.is_lifetime():
+                            ptrs = [a for a in I.call_args() if a[0] in ("i", "a")]
+                        if any(self._derives_from_buf(tuple(p_)) for p_ in ptrs):
+                            raise Broken("D-COV: nested loops in %s touch the buffer" % f.name)
 
     # -- values ------------------------------------------------------------------
     def val(self, v):
